@@ -75,9 +75,9 @@ SPECS["C09"] = {
 # ---------------------------------------------------------------------------------------------- C10
 def plan_c10(tier, seed):
     if tier == "quick":
-        return checks("main", 8, 40000) + shards("plain", "sparse-12", 8)
+        return checks("main", 8, 40000) + shards("plain", "sparse-12", 8) + shards("plain", "tiny-floats", 4)
     runs = (checks("main", 10, 500000) + checks("nohook", 2, 300000) + shards("plain", "sparse-17", 16, timeout=7000)
-            + shards("plain", "wide-50", 16, timeout=7000))
+            + shards("plain", "wide-50", 16, timeout=7000) + shards("plain", "tiny-floats", 4))
     # every float bit pattern at three (precision, format) pairs, plain -O2 build, 16 shards each
     for what in ("floats-9-0", "floats-6-1", "floats-2-2"):
         runs += shards("plain", what, 16, timeout=7000)
@@ -92,8 +92,9 @@ SPECS["C10"] = {
     },
     "default_build": "main",
     "plan": plan_c10,
-    "exhaustive_enums": ["floats-9-0", "floats-6-1", "floats-2-2", "sparse-12", "sparse-17"],
-    "rule": ("enumerated: every double with an odd significand part of at most 12 bits (quick) / 17 bits (thorough) in the binades below 1e-200 and above 1e200 at "
+    "exhaustive_enums": ["floats-9-0", "floats-6-1", "floats-2-2", "sparse-12", "sparse-17", "tiny-floats"],
+    "rule": ("enumerated: the 196,608 floats with the smallest subnormal bit patterns and those around the smallest normal at precision 24..40 in three formats; "
+             "every double with an odd significand part of at most 12 bits (quick) / 17 bits (thorough) in the binades below 1e-200 and above 1e200 at "
              "every precision 0..40 in the Default format (60 M / 1.9 G conversions); thorough also prints 800 M pseudo-random doubles with |binary exponent| >= 200 "
              "(hundreds of digits) in Fixed / SemiFixed at precision 0..3 and Default at 17..40; generated: "
              "case = (value, precision 0..40, format Default/Fixed/SemiFixed, unit width, stream prefix); values: doubles from 14 classes (uniform bits, "
